@@ -58,6 +58,8 @@ package gpusharingconfigmap
 //@ declare itoa(i int) string
 //@ func strconv.Itoa
 //@   props C11
+//@   trusted
+//@   note library function (no body in the loaded program): deterministic function of its argument
 //@   pure
 //@   ensures result == itoa(arg0)
 //@   ensures len(result) >= 1 && len(result) <= 20     // decimal representation of a 64-bit int
